@@ -611,7 +611,8 @@ func check(c Case) hx.Verdict {
 	// no line outside the target gains a line comment: a line `X # c` that `yq u` prints more often than `yq .`
 	// while it prints the bare line `X` less often is a node that had no comment and now carries one (the comment
 	// of the target wandering to a neighbour)
-	{
+	// (not for a delete: the sibling that moves up into the place of a deleted first item takes over its line prefix)
+	if c.Kind != "delete" {
 		count := func(text string) (withC, bare map[string]int) {
 			withC, bare = map[string]int{}, map[string]int{}
 			for _, l := range strings.Split(text, "\n") {
